@@ -688,8 +688,92 @@ pub fn eval(out: &mut Out, op: &str, args: &[&str]) -> Option<String> {
             }
             "ok".into()
         }
+        "rs.derive" => {
+            let src = String::from_utf8(sexp::unhx(args.first()?)?).ok()?;
+            let Some(c) = c19::check_src(&src) else { return Some("rejected".into()) };
+            let text = match c19::run_gen("rust-call", &c) {
+                Ok(t) => t,
+                Err(_) => return Some("panic".into()),
+            };
+            match bindcheck_module(&text) {
+                Ok((items, names)) => {
+                    BINDCHECK.with(|b| b.borrow_mut().push((src, items, names)));
+                    "deferred".into()
+                }
+                Err(why) => format!("err {why}"),
+            }
+        }
         _ => return None,
     })
+}
+
+thread_local! {
+    /// programs whose emitted items go to the compile stage: (source, the items as Rust text, the names they define)
+    pub static BINDCHECK: std::cell::RefCell<Vec<(String, String, Vec<String>)>> = std::cell::RefCell::new(vec![]);
+}
+
+/// the type definitions of a binding (everything but the service struct, its impl and its constants), re-printed from
+/// the syntax tree, and the names they define
+fn bindcheck_module(text: &str) -> Result<(String, Vec<String>), String> {
+    use quote::ToTokens;
+    let file = syn::parse_file(text).map_err(|e| format!("not a Rust file: {e}"))?;
+    let mut out = String::new();
+    let mut names = vec![];
+    let derives = |attrs: &[syn::Attribute]| attrs.iter().any(|a| a.path().is_ident("derive"));
+    for item in &file.items {
+        match item {
+            syn::Item::Struct(s) if derives(&s.attrs) => {
+                names.push(s.ident.to_string());
+                out.push_str(&item.to_token_stream().to_string());
+                out.push('\n');
+            }
+            syn::Item::Enum(e) if derives(&e.attrs) => {
+                names.push(e.ident.to_string());
+                out.push_str(&item.to_token_stream().to_string());
+                out.push('\n');
+            }
+            syn::Item::Type(t) => {
+                names.push(t.ident.to_string());
+                out.push_str(&item.to_token_stream().to_string());
+                out.push('\n');
+            }
+            syn::Item::Macro(m) => {
+                // candid::define_function!(pub Name : …) / candid::define_service!(pub Name : …)
+                let mut it = m.mac.tokens.clone().into_iter();
+                let _vis = it.next();
+                if let Some(proc_macro2::TokenTree::Ident(id)) = it.next() {
+                    names.push(id.to_string());
+                }
+                out.push_str(&item.to_token_stream().to_string());
+                out.push('\n');
+            }
+            _ => {}
+        }
+    }
+    Ok((out, names))
+}
+
+/// write the collected programs as one Rust file for `harness/bindcheck` (included there with `include!`)
+pub fn write_bindcheck(dir: &str) {
+    let progs = BINDCHECK.with(|b| b.borrow().clone());
+    if progs.is_empty() {
+        return;
+    }
+    let mut f = String::new();
+    for (i, (_src, items, names)) in progs.iter().enumerate() {
+        f.push_str(&format!("// PROGRAM {i}\npub mod p{i} {{\n#![allow(dead_code, unused_imports, non_camel_case_types, non_snake_case, non_upper_case_globals)]\nuse candid::{{self, CandidType, Deserialize, Principal}};\n{items}"));
+        f.push_str("pub fn items() -> Vec<(&'static str, candid::types::Type)> { vec![");
+        for n in names {
+            f.push_str(&format!("({:?}, <{n} as candid::CandidType>::ty()),", n));
+        }
+        f.push_str("] }\n}\n");
+    }
+    f.push_str("pub fn all() -> Vec<Prog> { vec![\n");
+    for (i, (src, _, _)) in progs.iter().enumerate() {
+        f.push_str(&format!("Prog {{ idx: {i}, src: {:?}, items: p{i}::items }},\n", src));
+    }
+    f.push_str("] }\n");
+    let _ = std::fs::write(format!("{dir}/bindcheck_gen.rs"), f);
 }
 
 pub fn run(ctx: &mut Ctx) {
@@ -717,6 +801,23 @@ pub fn run(ctx: &mut Ctx) {
         }
         let case = if ctx.rng.chance(1, 2) { "snake" } else { "camel" };
         ctx.emit(&format!("rs.field\t{}\t{case}", sexp::hx(name.as_bytes())), true);
+    }
+    // hand-written programs for the compile stage: keyword fields next to ordinary ones (the derive macro orders the
+    // fields of a record by the hash of the label it computes), renames, recursive and anonymous nested types
+    let fixed_progs = [
+        r#"type Attribute = record { name : text; "type" : text; value : nat }; service : { describe : (Attribute) -> (Attribute) query }"#,
+        r#"type K = record { "fn" : nat; "match" : text; "async" : bool; plain : int; "self" : nat8; "Self" : nat16; "crate" : nat32; "super" : nat64; "try" : text; "gen" : nat }; type V = variant { "type"; "fn" : K; other : opt V; "Self"; "self" : nat; "loop" : record { "while" : nat; zz : text; "for" : int } }; service : { get : (K) -> (V) }"#,
+        r#"type L = opt record { head : nat; tail : L }; type T = record { fooBar : nat; foo_bar_ : text; "é" : int; "a b" : bool; "1a" : nat8 }; type F = func (T) -> (L) query; type S = service { f : F; "g h" : (L) -> () }; service : { m : (F, S) -> (T) }"#,
+        r#"type N = record { a : record { b : variant { c : vec record { d : opt N }; e } }; f : record { nat; text } }; service : { n : (N, record { x : nat; "type" : N }) -> (variant { ok : N; err : text }) }"#,
+        r#"type A = record { "abstract" : nat; "become" : nat; "box" : nat; "do" : nat; "final" : nat; "macro" : nat; "override" : nat; "priv" : nat; "typeof" : nat; "unsized" : nat; "virtual" : nat; "yield" : nat; "dyn" : nat; "await" : nat; "move" : nat; "ref" : nat; "mod" : nat; "use" : nat; "where" : nat; "impl" : nat; "trait" : nat; "struct" : nat; "enum" : nat; "static" : nat; "const" : nat; "unsafe" : nat; "extern" : nat; "pub" : nat; "in" : nat; "as" : nat; "let" : nat; "mut" : nat; "break" : nat; "continue" : nat; "return" : nat; "if" : nat; "else" : nat; "true" : nat; "false" : nat }; service : { a : (A) -> () }"#,
+    ];
+    for src in fixed_progs {
+        let ans = ctx.emit(&format!("rs.types\t{}", sexp::hx(src.as_bytes())), true);
+        if ans == "ok" {
+            ctx.emit(&format!("rs.derive\t{}", sexp::hx(src.as_bytes())), true);
+        } else {
+            ctx.out.stat("fixed-program-not-ok");
+        }
     }
     // whole programs
     let n = if ctx.thorough { 30_000 } else { 1_200 };
@@ -774,6 +875,18 @@ pub fn run(ctx: &mut Ctx) {
             ctx.out.stat("skipped");
             continue;
         };
-        ctx.emit(&format!("rs.types\t{}", sexp::hx(src.as_bytes())), true);
+        let ans = ctx.emit(&format!("rs.types\t{}", sexp::hx(src.as_bytes())), true);
+        // a share of the programs whose binding reads back right go on to the compile stage: the items are compiled
+        // with the real derive macro and `T::ty()` is compared with the source definitions
+        let want = if ctx.thorough { 400 } else { 40 };
+        let have = BINDCHECK.with(|b| b.borrow().len());
+        let take = if ctx.thorough { k % 50 == 7 || k % 3 == 0 && k % 12 == 0 } else { k % 20 == 7 || k % 60 == 0 };
+        if ans == "ok" && have < want && take {
+            if let Some(c) = c19::check_src(&src) {
+                if !has_name_collision(&c) {
+                    ctx.emit(&format!("rs.derive\t{}", sexp::hx(src.as_bytes())), true);
+                }
+            }
+        }
     }
 }
